@@ -484,12 +484,15 @@ def r11_exactly_one_and_expiry(idx, r):
                   msg=f"`{norm(x)[:80]}` does not require exactly one duration input per cycle: an entry without any (or, with `<`, with several) is accepted and fails later, far from the input")
     rn = idx.method("armi.settings.settingsIO.SettingRenamer", "__init__")
     env = single_assign_env(rn.node)
-    ex = [s_ for s_ in iter_stores(rn.node) if s_.attr == "expired" and s_.value is not None and norm(s_.value) != "False"]
+    # wherever the expiry date is compared with today (in the value of a flag, or - a single-use flag being inlined by the canonical front
+    # end - directly in a test): the name counts as expired once the date has passed
+    ex = [x for x in ast.walk(rn.node) if isinstance(x, ast.Compare) and len(x.ops) == 1 and {"today", "expiry"} <= {norm(x.left), norm(x.comparators[0])}]
     if not ex:
-        raise AnchorMissing("SettingRenamer.__init__: expired = ...")
-    for s_ in ex:
-        comps = [x for x in ast.walk(s_.value) if isinstance(x, ast.Compare) and len(x.ops) == 1 and {"today", "expiry"} <= {norm(x.left), norm(x.comparators[0])}]
-        ok = bool(comps) and all((norm(x.left) == "expiry" and isinstance(x.ops[0], (ast.Lt, ast.LtE))) or (norm(x.left) == "today" and isinstance(x.ops[0], (ast.Gt, ast.GtE))) for x in comps)
+        raise AnchorMissing("SettingRenamer.__init__: comparison of expiry with today")
+    for x_ in ex:
+        comps = [x_]
+        ok = all((norm(x.left) == "expiry" and isinstance(x.ops[0], (ast.Lt, ast.LtE))) or (norm(x.left) == "today" and isinstance(x.ops[0], (ast.Gt, ast.GtE))) for x in comps)
+        s_ = type("S", (), {"stmt": x_})
         r.require(ok, "renamer:expired-once-the-date-has-passed", rn, node=s_.stmt,
                   msg=f"`{norm(s_.stmt)}`: an old name must count as expired when its expiry date lies in the past; the other way round, names inside their grace period are refused and "
                       "long-expired ones are silently renamed")
